@@ -213,6 +213,10 @@ func c11Cases(thorough bool) []c11Case {
 						}
 						continue
 					}
+					// error metadata under descriptive HTTP header names (an application's to set)
+					if oc == "err0" || oc == "err1" {
+						out = append(out, c11Case{cfg, oc, qs[0], hs[0], ts[0], http.Header{"User-Agent": {"agent/1"}, "Date": {"Mon, 28 Sep 2026 10:00:00 GMT"}, "X-Ea": {"v1"}}, 0})
+					}
 					// a client with a read limit smaller than the handler's error, where the error does not
 					// travel in an envelope (end-of-stream envelopes and gRPC-Web trailer frames are subject
 					// to the limit on this tree: known finding of C09)
